@@ -128,7 +128,13 @@ def run_variant(v: Dict[str, Any], repo: str) -> Dict[str, Any]:
             p = subprocess.run([sys.executable, "-m", "sa.check", prop, "--tier", "quick"], cwd=VERIF, env=env, capture_output=True, text=True)
             viol = any(line.startswith(f"VIOLATION property={prop}") for line in p.stdout.splitlines())
             results[prop] = {"rc": p.returncode, "violation": viol}
-            if v["expect"] == "violation":
+            want = v.get("expect_map", {}).get(prop, v["expect"])
+            if want == "undecided":
+                # a documented limit of the analysis: the change is met with "cannot decide" (exit 2), never exit 0
+                if p.returncode != 2 or viol:
+                    verdict = "MISSED" if p.returncode == 0 else f"WRONG-EXIT({p.returncode})"
+                    results[prop]["tail"] = p.stdout[-1500:] + p.stderr[-500:]
+            elif want == "violation":
                 if not (p.returncode == 1 and viol):
                     verdict = "MISSED" if p.returncode == 0 else f"WRONG-EXIT({p.returncode})"
                     results[prop]["tail"] = p.stdout[-1500:] + p.stderr[-500:]
